@@ -21,8 +21,7 @@ CONSTANTS MaxN, GenMaxN
 VARIABLES T, F, mode, start, cur, hist, done, g
 vars == <<T, F, mode, start, cur, hist, done, g>>
 
-NoGen == [on |-> "-", back |-> FALSE, rec |-> FALSE, self |-> FALSE, dev |-> FALSE, stack |-> <<>>, out |-> <<>>,
-          fin |-> FALSE]
+NoGen == [on |-> "-", back |-> FALSE, rec |-> FALSE, self |-> FALSE, stack |-> <<>>, out |-> <<>>, fin |-> FALSE]
 
 Init == /\ \E n \in 1..MaxN : \E p \in ParVecs(n) : \E m \in BOOLEAN : T = MkTree(n, p, m)
         /\ F \in SUBSET (1..T.n)
@@ -65,8 +64,6 @@ Finish == /\ done /\ mode # "gen"
 (* Operational refinement of WalkSeq, shaped like fst_traverse.walk(): a      *)
 (* stack of nodes to enter ([k |-> "in"]) and, for leave/both, markers of      *)
 (* nodes to leave ([k |-> "out"]); one action per next() of the generator.    *)
-(* dev = TRUE is the named deviation GenFinishUnfilteredSelf: the code yields  *)
-(* the walk root on leaving *without* applying the filter (known finding).    *)
 In(x)  == [k |-> "in", x |-> x]
 Out(x) == [k |-> "out", x |-> x]
 PushKids(st, x, back) == LET cs == Dir(T, x, back) IN st \o [i \in 1..Len(cs) |-> In(cs[Len(cs) + 1 - i])]   \* top = last
@@ -74,13 +71,13 @@ Top(st) == st[Len(st)]
 Pop(st) == SubSeq(st, 1, Len(st) - 1)
 
 GenBegin == /\ mode = "idle" /\ T.n <= GenMaxN
-            /\ \E on \in {"enter", "leave", "both"}, back \in BOOLEAN, rec \in BOOLEAN, self \in BOOLEAN, dev \in BOOLEAN :
+            /\ \E on \in {"enter", "leave", "both"}, back \in BOOLEAN, rec \in BOOLEAN, self \in BOOLEAN :
                  LET cs   == Dir(T, 1, back)
                      st0  == IF on = "leave" /\ ~rec
                              THEN [i \in 1..Len(cs) |-> Out(cs[Len(cs) + 1 - i])]   \* first level pre-processed
                              ELSE PushKids(<<>>, 1, back)
                      out0 == IF self /\ on # "leave" /\ 1 \in F THEN <<Ev(1, FALSE)>> ELSE <<>>
-                 IN g' = [on |-> on, back |-> back, rec |-> rec, self |-> self, dev |-> dev, stack |-> st0,
+                 IN g' = [on |-> on, back |-> back, rec |-> rec, self |-> self, stack |-> st0,
                           out |-> out0, fin |-> FALSE]
             /\ mode' = "gen" /\ start' = 1 /\ UNCHANGED <<T, F, cur, hist, done>>
 
@@ -109,20 +106,16 @@ GenNext == /\ mode = "gen" /\ ~g.fin /\ g.stack # <<>>
            /\ UNCHANGED <<T, F, mode, start, cur, hist, done>>
 
 SelfLeaves(gg) == gg.self /\ gg.on # "enter"
-GenFinish == /\ mode = "gen" /\ ~g.fin /\ g.stack = <<>> /\ ~g.dev
+GenFinish == /\ mode = "gen" /\ ~g.fin /\ g.stack = <<>>
              /\ g' = [g EXCEPT !.fin = TRUE,
                                !.out = IF SelfLeaves(g) /\ 1 \in F THEN @ \o <<Ev(1, TRUE)>> ELSE @]
              /\ UNCHANGED <<T, F, mode, start, cur, hist, done>>
-GenFinishUnfilteredSelf ==
-          /\ mode = "gen" /\ ~g.fin /\ g.stack = <<>> /\ g.dev
-          /\ g' = [g EXCEPT !.fin = TRUE, !.out = IF SelfLeaves(g) THEN @ \o <<Ev(1, TRUE)>> ELSE @]
-          /\ UNCHANGED <<T, F, mode, start, cur, hist, done>>
 GenClose == /\ mode = "gen" /\ g.fin /\ mode' = "idle" /\ g' = NoGen /\ start' = 0
             /\ UNCHANGED <<T, F, cur, hist, done>>
 
 Next == \/ Begin \/ DoStepFwd \/ DoStepBack \/ DoStepFwdTop \/ DoStepBackTop \/ DoNext \/ DoPrev
         \/ DoNextChild \/ DoPrevChild \/ Finish
-        \/ GenBegin \/ GenNext \/ GenFinish \/ GenFinishUnfilteredSelf \/ GenClose
+        \/ GenBegin \/ GenNext \/ GenFinish \/ GenClose
 Spec == Init /\ [][Next]_vars
 
 (* -------------------------------------------------------------- theorems -- *)
@@ -142,12 +135,9 @@ IterTheorems ==
       [] mode = "prev_child"    -> hist = ChildrenIn(start, TRUE)
       [] OTHER -> TRUE
 
-(* the generator produces exactly the declarative sequence; with the named    *)
-(* deviation it differs by one unfiltered leave of the walk root              *)
+(* the generator produces exactly the declarative sequence                    *)
 GenTheorem ==
-  (mode = "gen" /\ g.fin) =>
-    LET want == WalkSeq(T, 1, g.on, g.back, g.rec, g.self, F)
-    IN IF g.dev /\ SelfLeaves(g) /\ 1 \notin F THEN g.out = want \o <<Ev(1, TRUE)>> ELSE g.out = want
+  (mode = "gen" /\ g.fin) => g.out = WalkSeq(T, 1, g.on, g.back, g.rec, g.self, F)
 (* a prefix of it at any time                                                 *)
 GenPrefix ==
   (mode = "gen" /\ ~g.fin) =>
